@@ -417,3 +417,22 @@ mod tests {
         assert_eq!(dec_string_id.num, stream_id.num);
     }
 }
+
+/// Verification hooks (only with `--cfg libp2p_verif`): stream ids are opaque outside this module.
+#[cfg(libp2p_verif)]
+impl LocalStreamId {
+    pub(crate) fn verif_new(num: u64, role: Endpoint) -> Self {
+        Self { num, role }
+    }
+
+    pub(crate) fn verif_parts(&self) -> (u64, Endpoint) {
+        (self.num, self.role)
+    }
+}
+
+#[cfg(libp2p_verif)]
+impl RemoteStreamId {
+    pub(crate) fn verif_parts(&self) -> (u64, Endpoint) {
+        (self.num, self.role)
+    }
+}
